@@ -9,9 +9,9 @@ import vlib
 from gen import resolver as G
 
 ID = "C08"
-PROPS = ["IsoVerif/Props/C08.lean", "IsoVerif/Props/C08Order.lean", "IsoVerif/Props/C08Flow.lean",
+PROPS = ["IsoVerif/Props/C08.lean", "IsoVerif/Props/C08Diff.lean", "IsoVerif/Props/C08Order.lean", "IsoVerif/Props/C08Flow.lean",
          "IsoVerif/Props/C08Tables.lean", "IsoVerif/Props/C08Pickle.lean", "IsoVerif/Props/C05Printers.lean"]
-TARGETS = ["IsoVerif.Props.C08", "IsoVerif.Props.C08Order", "IsoVerif.Props.C08Flow", "IsoVerif.Props.C08Tables",
+TARGETS = ["IsoVerif.Props.C08", "IsoVerif.Props.C08Diff", "IsoVerif.Props.C08Order", "IsoVerif.Props.C08Flow", "IsoVerif.Props.C08Tables",
            "IsoVerif.Props.C08Pickle", "IsoVerif.Props.C05Printers"]
 GEN_DEPS = ["Enums", "EventClasses", "Strategies", "Prims", "Resolver", "PrinterTables"]
 LEVEL = "proof"
@@ -475,6 +475,17 @@ def check_list(l, out):
     for k, v in bykey.items():
         if len(v) > 1:
             fails.append(("dedup", "alignment %s retained %d times" % (k, len(v))))
+    # the losers are suppressed everywhere, also in the winner's own record: a read retained on exactly ONE record is
+    # not a tie between loci - that record comes out as it went in (types and multimapper flag), whatever it names at its
+    # own locus (an `ambiguous` / `inconsistent_ambiguous` primary stays primary; IntronCollector / IntronGraph skip
+    # records whose multimapper flag is set, so a flipped flag changes transcript discovery: audit-2 GAP C08-1)
+    if len(kept) == 1:
+        a, b = kept[0]
+        ch = [f for f in ("atype", "gtype", "mm") if a[f] != b[f]]
+        if ch:
+            fails.append(("loser_changes_winner",
+                          "record %d is the only retained record but came out with %s (went in with %s)"
+                          % (a["aid"], ", ".join("%s=%s" % (f, b[f]) for f in ch), ", ".join("%s=%s" % (f, a[f]) for f in ch))))
     # ties flagged: several retained loci whose isoforms (genes) differ => every retained record is flagged ambiguous
     # (a single retained alignment that is ambiguous at its own locus is not a tie between loci)
     isoforms = set(i for _, b in kept for i in b["iso"])
@@ -525,6 +536,15 @@ def oracle_list(ctx, l, all_perms, totals=True):
             res.append((kind, {"recs": q}, detail))
         if vlib.is_err(out):
             continue
+        # differential form of "the alignments that lose are suppressed everywhere": resolving the read WITHOUT the records
+        # that lost gives the retained records exactly as the full resolution left them (all fields, flags included)
+        sub = [a for a, b in zip(q, out) if b["atype"] != "suspended"]
+        if sub and len(sub) < len(q):
+            out2 = impl_resolve("take_best", sub)
+            with_losers = [b for b in out if b["atype"] != "suspended"]
+            if vlib.is_err(out2) or vlib.canon(out2) != vlib.canon(with_losers):
+                res.append(("loser_changes_winner", {"recs": q},
+                            {"retained_with_losers": with_losers, "resolved_without_losers": out2}))
         keys = sorted(set(G.key_of(b) for b in out if b["atype"] != "suspended"))
         if base_keys is None:
             base_keys = (keys, q)
@@ -542,6 +562,10 @@ WITNESS_TOTAL = [G.rec(1, G.LOCI[2], "inconsistent", False, [4]), G.rec(2, G.LOC
                  G.rec(3, G.LOCI[1], "unique", True, [2])]
 WITNESS_TOTAL_SAME = [G.rec(1, G.LOCI[2], "inconsistent", False, [4]), G.rec(2, G.LOCI[0], "unique", True, [0]),
                       G.rec(3, G.LOCI[4], "unique", True, [0])]
+# audit-2 GAP C08-1 (Lean: single_winner_witness): the typical read of a novel isoform - primary alignment inconsistent w.r.t. both
+# annotated isoforms of its gene - plus a secondary alignment that loses; the pre-fix filter_assignments re-flagged the primary
+WITNESS_SINGLE = [G.rec(1, G.LOCI[2], "inconsistent_ambiguous", False, [0, 1]), G.rec(2, G.LOCI[1], "intergenic", True)]
+WITNESS_SINGLE_AMB = [G.rec(1, G.LOCI[2], "ambiguous", False, [0, 1]), G.rec(2, G.LOCI[1], "noninformative", True)]
 
 
 def oracle(ctx, disagreements, broken):
@@ -578,6 +602,8 @@ def _oracle(ctx, disagreements, broken):
     report(oracle_list(ctx, WITNESS_ORDER, True))
     report(oracle_list(ctx, WITNESS_TOTAL, True))
     report(oracle_list(ctx, WITNESS_TOTAL_SAME, True))
+    report(oracle_list(ctx, WITNESS_SINGLE, True))
+    report(oracle_list(ctx, WITNESS_SINGLE_AMB, True))
     # 1. the disagreeing inputs first
     for d in disagreements:
         inp = d.get("input")
@@ -616,7 +642,11 @@ def matches_finding(failure, entry):
             return False
         tt_ok = d["transcript_total"] <= 1 + 1e-9 or d["weighted_records_transcript"] >= 2
         gg_ok = d["gene_total"] <= 1 + 1e-9 or d["weighted_records_gene"] >= 2
-        return d["retained"] >= 2 and tt_ok and gg_ok
+        # the third table, transcript_model_counts.tsv (pipeline level only): one GraphBasedModelConstructor per locus counts
+        # the retained record it loads on its own - the same defect seen through another counter (audit-2, C08/p01)
+        mm_ok = d.get("model_total", 0.0) <= 1 + 1e-9 or d.get("weighted_records_model", 0) >= 2
+        bound = max(d["transcript_total"], d["gene_total"], d.get("model_total", 0.0)) <= d["retained"] + 1e-9
+        return d["retained"] >= 2 and tt_ok and gg_ok and mm_ok and bound
     return failure["kind"] == entry.get("kind") and entry.get("id") != "multilocus_tie_weight"
 
 
